@@ -312,13 +312,30 @@ func (c *Comparer) field(v reflect.Value, n *Node, fi int, f Field, path string)
 		if len(got) != len(want) || strings.Join(got, "\x00") != strings.Join(want, "\x00") {
 			c.add(fp, "value", "user-implemented captures saw %q, want %q", got, want)
 		}
-	case FPars, FParsV, FParss:
+	case FPars, FParsV, FParss, FCust, FCusts:
 		var want []string
 		for _, e := range evs {
 			want = append(want, e.Vals...)
 		}
 		var got []string
+		piText := func(v reflect.Value) string {
+			if v.IsNil() {
+				return "<nil interface>"
+			}
+			if pv, ok := v.Interface().(PIVal); ok {
+				return pv.V
+			}
+			return fmt.Sprintf("<%s>", v.Elem().Type())
+		}
 		switch f.Kind {
+		case FCust:
+			if !fv.IsNil() {
+				got = []string{piText(fv)}
+			}
+		case FCusts:
+			for i := 0; i < fv.Len(); i++ {
+				got = append(got, piText(fv.Index(i)))
+			}
 		case FPars:
 			if !fv.IsNil() {
 				got = []string{fv.Elem().Field(0).String()}
@@ -332,7 +349,7 @@ func (c *Comparer) field(v reflect.Value, n *Node, fi int, f Field, path string)
 				got = append(got, fv.Index(i).Field(0).String())
 			}
 		}
-		if f.Kind != FParss && len(want) > 1 {
+		if f.Kind != FParss && f.Kind != FCusts && len(want) > 1 {
 			want = want[len(want)-1:]
 		}
 		if strings.Join(got, "\x00") != strings.Join(want, "\x00") || len(got) != len(want) {
@@ -523,6 +540,32 @@ func (c *Comparer) Leaks(v reflect.Value, n *Node, uni int, path string) {
 			if !subseq(got, calls) {
 				c.add(fp, "leak", "user-implemented captures saw %q, not all of them accepted captures %q", got, calls)
 			}
+		case FCust, FCusts:
+			var vals []string
+			for _, e := range evs {
+				vals = append(vals, e.Vals...)
+			}
+			var got []string
+			add := func(v reflect.Value) {
+				if v.IsNil() {
+					return
+				}
+				if pv, ok := v.Interface().(PIVal); ok {
+					got = append(got, pv.V)
+				} else {
+					got = append(got, "<"+v.Elem().Type().String()+">")
+				}
+			}
+			if f.Kind == FCust {
+				add(fv)
+			} else {
+				for i := 0; i < fv.Len(); i++ {
+					add(fv.Index(i))
+				}
+			}
+			if !subseq(got, vals) && !(f.Kind == FCust && len(got) == 1 && contains(vals, got[0])) {
+				c.add(fp, "leak", "%q holds custom productions that are not on the accepted path %q", got, vals)
+			}
 		case FPars, FParsV, FParss:
 			var vals []string
 			for _, e := range evs {
@@ -706,6 +749,15 @@ func subseqConcat(s string, vals []string) bool {
 		return r
 	}
 	return rec(0, 0)
+}
+
+func contains(vs []string, s string) bool {
+	for _, v := range vs {
+		if v == s {
+			return true
+		}
+	}
+	return false
 }
 
 func brief(v reflect.Value) string {
